@@ -10,7 +10,11 @@ Tie (harness/quad.cpp, which #includes net_model.cpp of the tree under test):
   SOLVE solveStar/solve/solveWithPenalty/solveB2B with all weights and strengths times 2, 1/4, 1024 (bitwise equal
         results) and times 2.5, 7 (within SOLVE_TOL of the coordinate span, anchored systems only)   [validated, not proved]
   PLACE Circuit::placeGlobal with weights and penalty.initialValue times 2, 1/2: every callback and the result equal;
-        times 2.5, 7: first lower-bound callback within 1 + 1e-3 * span; x/yTopology store the circuit's weights."""
+        times 2.5, 7: first lower-bound callback within 1 + 1e-3 * span; x/yTopology store the circuit's weights.
+  FASM  the assembly at weights/strengths * 1 and * 2^k against the Flocq binary32 model coq/QuadFloat.v evaluated inside Coq
+        (vm_compute), BIT FOR BIT; + the statement of c17_float_assembly_pow2_exact on the C++ output (side condition true in
+        both runs => every triplet value and rhs entry is ldexp(original, k))
+  SOLVEK (measurement only) the range of k in which the solve is bitwise invariant under weights * 2^k."""
 import json
 import struct
 from fractions import Fraction
@@ -212,6 +216,227 @@ def anchored(b):
     return all(find(c) == find(b["nc"]) for c in range(b["nc"]))
 
 
+# ---------------------------------------------------------------- binary32 tie (Flocq model coq/QuadFloat.v, theorem c17_float_*)
+# FASM: the underflow witness of QuadFloatProofs.fassembly_underflow_witness (one cell, net {cell 0, fixed pin at 0.375}, weight
+# (2^23+1) 2^-23, k = -126, addBipoint): the scaled right-hand side is NOT 2^-126 times the original one
+FASM_WITNESS = "FASM -126 5 1 1 0 1 2 8388609 23 0 0 0 -1 3 3 0 0 0"
+FLOAT_FLAGS = ("harness and library built with g++ -std=gnu++17 -O1, x86-64 SSE scalar arithmetic, no -ffast-math, no -mfma (no contraction): "
+               "one C++ float operator = one IEEE-754 binary32 operation, round to nearest even")
+
+
+class RdF(Rd):
+    def q(self):
+        n = self.nx(); e = self.nx()
+        return Fraction(n, 1 << e) if e >= 0 else Fraction(n * (1 << -e))
+
+
+def dyad(fr):
+    """dyadic Fraction -> (m, e), fr = m * 2^e, m odd (or 0, 0)"""
+    if fr == 0:
+        return 0, 0
+    m, e = fr.numerator, -(fr.denominator.bit_length() - 1)
+    while m % 2 == 0:
+        m //= 2; e += 1
+    return m, e
+
+
+def f32_encode(fr, neg_zero=False):
+    """bit pattern of a dyadic Fraction that is exactly a binary32 number, else None"""
+    if fr == 0:
+        return 0x80000000 if neg_zero else 0
+    m, e = dyad(fr)
+    sign = 0x80000000 if m < 0 else 0
+    m = abs(m)
+    nb = m.bit_length()
+    if nb > 24 or e < -149 or e + nb > 128:
+        return None
+    if e + nb - 1 >= -126:                      # normal: mantissa widened to 24 bits
+        m <<= 24 - nb; e -= 24 - nb
+        return sign | ((e + 150) << 23) | (m - (1 << 23))
+    return sign | (m << (e + 149))              # subnormal: exponent -149
+
+
+def f32_decode(u):
+    """bit pattern -> (sign bit, Fraction) or None for inf/NaN"""
+    s, ex, mant = u >> 31, (u >> 23) & 0xFF, u & 0x7FFFFF
+    if ex == 0xFF:
+        return None
+    v = Fraction(mant, 1 << 149) if ex == 0 else Fraction(mant + (1 << 23)) * Fraction(2) ** (ex - 150)
+    return s, (-v if s else v)
+
+
+def f32_ldexp_exact(u, k):
+    """bits of (value of u) * 2^k when that is exactly a binary32 number (sign of zero kept), else None"""
+    d = f32_decode(u) if u is not None else None
+    if d is None:
+        return None
+    return f32_encode(d[1] * Fraction(2) ** k, neg_zero=bool(d[0]))
+
+
+def spec_bits(tok):
+    """'S754_finite false 8388611 (-2)' etc. (as printed by Coq) -> binary32 bit pattern (None for NaN)"""
+    t = tok.replace("SpecFloat.", "").replace("(", " ").replace(")", " ").split()
+    sign = 1 << 31 if len(t) > 1 and t[1] == "true" else 0
+    if t[0] == "S754_zero":
+        return sign
+    if t[0] == "S754_infinity":
+        return sign | (0xFF << 23)
+    if t[0] == "S754_nan":
+        return None
+    m, e = int(t[2]), int(t[3])
+    if m < (1 << 23):
+        return sign | m if e == -149 else None
+    return sign | ((e + 150) << 23) | (m - (1 << 23))
+
+
+def gal_f(fr):
+    m, e = dyad(fr)
+    return "(f_of_me (%d) (%d))" % (m, e)
+
+
+def gal_list(xs):
+    return "[" + "; ".join(xs) + "]"
+
+
+def gal_sys(b, nets, strengths):
+    nm = "(fbuild_nm %d%%nat %s)" % (b["nc"], gal_list(
+        "(%s, %s)" % (gal_f(w), gal_list("((%d), %s)" % (c, gal_f(o)) for c, o in pins)) for w, pins in nets))
+    mode = b["mode"]
+    pl = gal_list(gal_f(p) for p in b["pl"])
+    if mode == 0:
+        s = "fcreate_star0 %s" % nm
+    elif mode <= 4:
+        s = "fcreate %s %s %s %s" % (["B2B", "Star", "Clique", "LightStar"][mode - 1], nm, pl, gal_f(b["eps"]))
+    else:
+        s = ("fcreate_bipoint0 %s" if mode == 5 else "fcreate_clique0 %s") % nm
+    if b["pen"]:
+        cut, ts = b["pen"]
+        s = "fadd_penalty %s %s %s %s (%s)" % (pl, gal_list(gal_f(t) for t, _ in ts), gal_list(gal_f(x) for x in strengths), gal_f(cut), s)
+    return "fsys_dump (ffinalize (%s))" % s
+
+
+def parse_dump(txt):
+    import re
+    m = re.match(r"^\(\[(.*?)\], \[(.*?)\], \[(.*?)\], \[(.*?)\], (true|false)\)$", txt.replace("SpecFloat.", "").replace("[]", "[ ]"))
+    if not m:
+        return None
+    sp = lambda p: [x.strip() for x in p.split(";") if x.strip()]
+    rc = [int(x.replace("(", "").replace(")", "")) for x in sp(m.group(1))]
+    return {"rc": list(zip(rc[0::2], rc[1::2])), "vals": [spec_bits(x) for x in sp(m.group(2))],
+            "rhs": [spec_bits(x) for x in sp(m.group(3))], "init": [spec_bits(x) for x in sp(m.group(4))], "ok": m.group(5) == "true"}
+
+
+def parse_fasm_impl(txt):
+    p = [x.strip() for x in txt.split("|")]
+    if len(p) != 5:
+        return None
+    trips = [t.split() for t in p[1].split(";")] if p[1] else []
+    nan = lambda u: None if (u >> 23) & 0xFF == 0xFF and u & 0x7FFFFF else u          # NaN payloads and signs are not modelled
+    hx = lambda q: [nan(int(x, 16)) for x in q.split(";")] if q else []
+    return {"n": int(p[0].split()[0]), "pre": int(p[0].split()[1]), "rc": [(int(t[0]), int(t[1])) for t in trips], "vals": [nan(int(t[2], 16)) for t in trips],
+            "rhs": hx(p[2]), "init": hx(p[3]), "w": hx(p[4])}
+
+
+def float_tie(ctx, harness, count, diffs, concrete, only=None):
+    """the assembly of the compiled library against the Flocq binary32 model evaluated inside Coq by vm_compute, bit for bit, at
+    weights/strengths * 1 and * 2^k; and the statement of c17_float_assembly_pow2_exact on the C++ output"""
+    lines = only or [FASM_WITNESS] + common.corpus("C17", ("FASM ",)) + common.harness_gen(harness, ["fasm", ctx.seed, count])
+    impl, _, _ = common.run_both([harness, "run"], None, lines)
+    info = {"cases": len(lines), "values_compared_bit_for_bit": 0, "cases_equal_bit_for_bit": 0, "scaled_weight_not_a_binary32_number": 0,
+            "side_condition_true_in_both_runs": 0, "of_which_scaled_exactly_on_the_cpp": 0, "side_condition_false": 0,
+            "side_condition_false_and_cpp_not_scaled_exactly": 0, "witness_reproduced": False, "flags": FLOAT_FLAGS,
+            "modes": {}, "samples": lines[1:3]}
+    todo, exprs = [], []
+    for l, out in zip(lines, impl):
+        t = l.split()
+        k = int(t[1])
+        b = read_body(RdF(t[2:]))
+        runs = [parse_fasm_impl(x) for x in out.split(" || ")]
+        if len(runs) != 2 or None in runs:
+            concrete.append((l, "assembly did not return a system: " + out[:200], out[:300])); continue
+        nets = netmodel_pins(b)
+        f = Fraction(2) ** k
+        st = [s for _, s in b["pen"][1]] if b["pen"] else []
+        if any(f32_encode(w * f) is None for w, _ in nets) or any(f32_encode(s * f) is None for s in st):
+            info["scaled_weight_not_a_binary32_number"] += 1            # the hypothesis "multiplied by 2^k exactly" does not hold
+            continue
+        todo.append((l, k, b, runs))
+        exprs.append(gal_sys(b, nets, st))
+        exprs.append(gal_sys(b, [(w * f, p) for w, p in nets], [s * f for s in st]))
+        info["modes"][b["mode"]] = info["modes"].get(b["mode"], 0) + 1
+    res = common.vm_eval("C17f", "From Coq Require Import List ZArith. From Flocq Require Import Core BinarySingleNaN. Import ListNotations. "
+                                 "Require Import CV.Quad CV.QuadFloat. Local Open Scope Z_scope.", exprs, timeout=1500) if exprs else []
+    if res is None:
+        diffs.append((lines[0], "vm_compute evaluation of the binary32 model (QuadFloat.fsys_dump) failed", "", False))
+        return info
+    for j, (l, k, b, runs) in enumerate(todo):
+        mods = [parse_dump(res[2 * j]), parse_dump(res[2 * j + 1])]
+        if None in mods:
+            diffs.append((l, "binary32 model output not understood: " + res[2 * j][:120], "", False)); continue
+        bad = None
+        for name, r, m in (("weights*1", runs[0], mods[0]), ("weights*2^%d" % k, runs[1], mods[1])):
+            for key in ("rc", "vals", "rhs", "init"):
+                if r[key] != m[key]:
+                    i = next((i for i in range(min(len(r[key]), len(m[key]))) if r[key][i] != m[key][i]), -1)
+                    bad = bad or "%s, %s[%d]: C++ %s, binary32 model %s" % (name, key, i, r[key][i] if i >= 0 else len(r[key]), m[key][i] if i >= 0 else len(m[key]))
+            info["values_compared_bit_for_bit"] += len(r["vals"]) + len(r["rhs"]) + len(r["init"])
+        for name, r, fac in (("weights*1", runs[0], 1), ("weights*2^%d" % k, runs[1], Fraction(2) ** k)):
+            given = [f32_encode(w * fac) for w, _ in netmodel_pins(b)]
+            if r["w"] != given:
+                bad = bad or "%s: NetModel::netWeight() returns bits %s for nets added with weights of bits %s" % (name, r["w"], given)
+        if bad:
+            diffs.append((l, "assembly differs bit for bit from the binary32 model QuadFloat.v: " + bad, impl[lines.index(l)][:300], False))
+        else:
+            info["cases_equal_bit_for_bit"] += 1
+        # the statement on the C++ output: same pattern, every value of the scaled run = ldexp(original value, k) exactly
+        a, c = runs
+        pre = a["pre"]                                              # triplets emitted before finalize(); the 1.0e-8f entries follow, unscaled
+        exact = (a["rc"] == c["rc"] and a["init"] == c["init"] and len(a["rhs"]) == len(c["rhs"]) and c["pre"] == pre
+                 and all(c["vals"][i] == f32_ldexp_exact(a["vals"][i], k) for i in range(pre))
+                 and a["vals"][pre:] == c["vals"][pre:]
+                 and all(c["rhs"][i] == f32_ldexp_exact(a["rhs"][i], k) for i in range(len(a["rhs"]))))
+        if mods[0]["ok"] and mods[1]["ok"]:
+            info["side_condition_true_in_both_runs"] += 1
+            if exact:
+                info["of_which_scaled_exactly_on_the_cpp"] += 1
+            else:
+                concrete.append((l, "weights and strengths times 2^%d: the C++ system is not the original one with every value multiplied by 2^%d "
+                                    "although no operation overflowed or left the normal range (side condition fs_ok of "
+                                    "c17_float_assembly_pow2_exact true in both runs)" % (k, k), impl[lines.index(l)][:300]))
+        else:
+            info["side_condition_false"] += 1
+            if not exact:
+                info["side_condition_false_and_cpp_not_scaled_exactly"] += 1
+                if l == FASM_WITNESS:
+                    info["witness_reproduced"] = True
+    return info
+
+
+# the conjugate gradient is NOT modelled; measured only (never a violation): for which common factors 2^k the solve is bitwise invariant.
+# Eigen's kernel compares |r|^2 with max(tol^2 |b|^2, FLT_MIN) and computes |b|^2, r.z, p.Ap in binary32: scaling (A, b) by 2^k scales these
+# by 4^k, so the window of exactness of the SOLVE is about half as wide (in k) as the one of the assembly.  Witness (one cell, net to two
+# fixed pins, tolerance 1e-4): at k = -64 the threshold is clamped to FLT_MIN and the solver returns its initial guess 0 instead of 68.17
+CG_WITNESS = "SOLVEK -64 3 13743895 37 580 2 1 31571 12 1 1 478451 17 0 9639 9 1 87 0 87 0 1 -87695 10 0"
+
+
+def cg_window(harness, solve_lines):
+    ks = (-30, 30, -64, 64)
+    cases = [CG_WITNESS] + ["SOLVEK %d %s" % (k, l.split(" ", 1)[1]) for l in solve_lines for k in ks]
+    impl, _, _ = common.run_both([harness, "run"], None, cases, chunk=200)
+    info = {"solve_cases": len(solve_lines), "note": "measurement, not a verdict: weights and strengths times 2^k, result compared bitwise with k = 0"}
+    for k in ks:
+        info["bitwise_equal_at_2^%d" % k] = 0
+    for c, out in zip(cases, impl):
+        p = out.split(" | ")
+        if len(p) != 2:
+            continue
+        if c == CG_WITNESS:
+            info["witness_k=-64"] = {"case": c, "x_at_factor_1": floats(p[0]), "x_at_factor_2^-64": floats(p[1])}
+        elif p[0] == p[1]:
+            info["bitwise_equal_at_2^%d" % int(c.split()[1])] += 1
+    return info
+
+
 # ---------------------------------------------------------------- run
 def check_asm(ctx, lines, impl, model, stats):
     """returns (violations with concrete input, model/impl differences)"""
@@ -361,6 +586,11 @@ def run(ctx):
     sbad = check_solve(solve, simpl, stats)
     pimpl, _, _ = common.run_both([harness, "run"], None, place, chunk=3)
     pbad = check_place(place, pimpl, stats)
+    fdiffs, fconcrete = [], []
+    finfo = float_tie(ctx, harness, 60 if q else 600, fdiffs, fconcrete)
+    cginfo = cg_window(harness, solve[:(30 if q else 300)])
+    concrete += fconcrete
+    diffs += fdiffs
 
     for l, why, out in concrete[:2]:
         ctx.violation("C17 violated by /repo (matrix assembly): " + why,
@@ -384,7 +614,11 @@ def run(ctx):
     cov.update({"trusted_base": common.TRUSTED_BASE + [
                     "Eigen's conjugate gradient and all single-precision arithmetic are not modelled: the solver clauses (bitwise invariance under 2^k, "
                     "tolerance under 2.5 and 7) are VALIDATED by the runs of this check, not proved",
-                    "floats are modelled by exact rationals; the exact comparison is made only when the C++ assembly raised no FE_INEXACT"],
+                    "Quad.v models floats by exact rationals (exact comparison only when the C++ assembly raised no FE_INEXACT); QuadFloat.v models "
+                    "them by Flocq binary32 and is compared bit for bit (FASM stream); Flocq and the standard library's axioms of the real numbers "
+                    "(sig_forall_dec, sig_not_dec, functional_extensionality_dep, classic) are trusted by the c17_float_* theorems",
+                    "compiler: " + FLOAT_FLAGS],
+                "binary32_tie": finfo, "cg_scale_window_measured": cginfo,
                 "evaluations": len(asm) + len(solve) + len(place),
                 "distinct_nontrivial": len(nontriv),
                 "rule": "ASM case lines (distinct) with at least one net joining two different cells/fixed pins; all seven assembly entry points "
@@ -400,6 +634,10 @@ def run(ctx):
         "CG tolerance in [1e-6, 1e-4]); no overflow/underflow",
         "solver invariance is validated on %d SOLVE and %d PLACE cases (bitwise for 2^k; %g of the span for 2.5 and 7 on anchored systems; "
         "placeGlobal: only the first lower-bound placement is compared for non-dyadic factors, later steps take discrete decisions)" % (len(solve), len(place), SOLVE_TOL),
+        "power-of-two clause: PROVED for the assembly in binary32 under the side condition fs_ok (no overflow, no rounded intermediate at or below "
+        "2^-126) in both runs; for the conjugate gradient (not modelled) it is validated by the SOLVE/PLACE runs for factors 2^-24 .. 2^10 and "
+        "measured (cg_scale_window_measured) beyond: Eigen's absolute threshold FLT_MIN and its binary32 squared norms limit the exactness of "
+        "the solve to about |k| <= 44 on this distribution",
         "model tied to the code by comparison on the cases of this run"])
 
 
@@ -421,6 +659,15 @@ def replay(ctx, path):
         for _, d, _, f12 in diffs:
             print("model/impl difference:", d, "(C++ equals the truncating model: F12)" if f12 else "")
         return 1 if concrete or diffs else 0
+    if tag == "FASM":
+        fdiffs, fconcrete = [], []
+        info = float_tie(ctx, harness, 0, fdiffs, fconcrete, only=[case])
+        print("binary32 tie:", {k: v for k, v in info.items() if k not in ("flags", "samples")})
+        for _, why, _ in fconcrete:
+            print("violation:", why)
+        for _, d, _, _ in fdiffs:
+            print("model/impl difference:", d)
+        return 1 if fconcrete or fdiffs else 0
     impl, _, _ = common.run_both([harness, "run"], None, [case])
     print("impl :", impl[0][:2000])
     bad = check_solve([case], impl, stats) if tag == "SOLVE" else check_place([case], impl, stats)
